@@ -229,6 +229,10 @@ def run(ctx: Ctx):
                        "burst": r_.get("burst", 0),
                        "what": f"{r_['role']}: inbound S{m['s']}F{m['f']} W={m['w']} ({m['cls']}, body {r_['bodyk']}) -> "
                                f"{v['clause']}: {[(e['s'], e['f']) for e in r_['echo']]}"})
+    # a primary can only be answered if it reaches the handler: the receiver / dispatcher loops of 30 (300) runs with messages
+    # arriving in arbitrary segments are validated against DispatcherLoops (no wake-up may be lost; model checked in C04)
+    from . import c04_trace
+    c04_trace.check(ctx, wd, pmap, only_plain=True)
     ctx.rule = ("inbound messages = every catalogued S/F x W x body class + uncatalogued S/F pairs (thorough: all) + probe callbacks, "
                 "shuffled into long sequences on host and equipment handlers, system bytes incl. boundary values and values the handler "
                 "itself used before (a timed-out and an answered transaction of its own); in every fourth batch 2-3 messages arrive in "
